@@ -53,6 +53,9 @@ def run(ctx):
     W = inserts[0]
     wbody = W.body
     ctx.saw(wbody)
+    # what is advertised is what is recorded only if every successful return of the allocator went through the write
+    from .c18 import _r1 as write_dominates_ok
+    write_dominates_ok(ctx, W)
     Tw = terms(P, wbody)
     where = ctx.where(wbody, W.term["sp"])
     cols = W.stmt["cols"]
